@@ -1157,6 +1157,11 @@ func (m *Nitro) LoadFromDisk(dir string, concurr int, callb ItemCallback) (*Snap
 		}
 	}
 
+	if m.useMemoryMgmt {
+		old := m.store
+		old.FreeNode(old.HeadNode(), &old.Stats)
+		old.FreeNode(old.TailNode(), &old.Stats)
+	}
 	m.store = b.Assemble(segments...)
 
 	// Delta processing
